@@ -2,7 +2,7 @@
 (C02 tiling/operands, C03 argval resolution, C04 jump targets and is_jump_target, C05/C20 starts_line)."""
 import z3
 from pyvc.engine import Loop, HMap
-from pyvc.types import Int, Bytes, IntMap, IdSeq, IdTuple, Const, ForAll, OneOf, Maker
+from pyvc.types import Int, Bytes, IntMap, IdSeq, IdTuple, Const, ForAll, OneOf, Maker, Tok
 from pyvc.sym import And, Or, Not, Implies, If, Len, SSet, SEnum, SInt, SBool, is_sym, _ie, Eq
 from contracts.common import Registry, SetOf, table_configs, REF, ctab, EXT, In, At, gen_code, IsNone, OptVal, Has, MapHas, MapAt
 from contracts import wordcode as CW
@@ -12,7 +12,6 @@ R = Registry()
 contract = R.contract
 CONTRACTS = R.contracts
 configs_for = R.configs_for
-ALL_CONTRACTS = CW.CONTRACTS + CONTRACTS     # callee contracts available at call sites
 
 
 def Lookup(table, idx):
@@ -238,3 +237,117 @@ contract(
                    decreases=lambda n, i, last_op_was_extended_arg: n - i + If(last_op_was_extended_arg, 1, 0))},
     opaque=("format_CALL_FUNCTION", "format_CALL_FUNCTION_EX", "prefer_double_quote"),
 )
+
+
+# ================================================================================================
+# Call-site view of the decoder + the stream driver get_instructions_bytes (C02 tiling, C04/C05/C20 pass-through)
+class FreshInstruction(Maker):
+    """an Instruction whose structural fields are fresh symbols; text / resolved-value fields are unmodelled"""
+    def __call__(self, eng, name):
+        from xdis.instruction import Instruction
+        from pyvc.engine import Opaque
+        from pyvc.sym import SOpt, SBool, SInt
+        mk = lambda t: z3.Int("%s.%s" % (name, t))
+        v = Instruction(opcode=SInt(mk("opcode")), opname=Opaque("opname"), arg=SOpt(z3.Bool(name + ".arg!none"), mk("arg")),
+                        argval=Opaque("argval"), argrepr=Opaque("argrepr"), offset=SInt(mk("offset")),
+                        starts_line=SOpt(z3.Bool(name + ".sl!none"), mk("starts_line")), is_jump_target=SBool(z3.Bool(name + ".jt")),
+                        positions=None, optype=Opaque("optype"), has_arg=SBool(z3.Bool(name + ".has_arg")), inst_size=SInt(mk("inst_size")),
+                        has_extended_arg=SBool(z3.Bool(name + ".hext")), fallthrough=None, tos_str=None, start_offset=Opaque("start_offset"))
+        return v, []
+
+
+def inst_struct(value, bytecode, offset0, opc, j, linestarts, line_offset):
+    """structural part of inst_post (what callers of the decoder may assume about the j-th instruction)"""
+    Wd = width(opc)
+    off = offset0 + Wd * j
+    op = bytecode[off]
+    has_arg = op >= opc.HAVE_ARGUMENT
+    A = operand(bytecode, opc, offset0, j)
+    size = (2 if is_word(opc) else If(has_arg, 3, 1)) + j * Wd
+    out = [("offset", value.offset == off), ("opcode", value.opcode == op), ("has_arg", value.has_arg == has_arg),
+           ("arg", value.arg == If(has_arg, A, None)), ("inst_size", value.inst_size == size),
+           ("has_extended_arg", value.has_extended_arg == (j != 0)),
+           ("is_jump_target", value.is_jump_target == Has(label_spec(bytecode, opc), off))]
+    if linestarts is None:
+        out.append(("starts_line", IsNone(value.starts_line)))
+    else:
+        out.append(("starts_line", value.starts_line == If(MapHas(linestarts, off), MapAt(linestarts, off) + line_offset, None)))
+    return out
+
+
+_DEC = CONTRACTS[0]
+_DEC.yield_fresh = FreshInstruction()
+_DEC.yield_post_call = lambda value, bytecode, _old_offset, opc, _k, linestarts, line_offset: inst_struct(value, bytecode, _old_offset, opc, _k, linestarts, line_offset)
+
+
+def glob_ext(code, opc, k):
+    """CPython's extended_arg in effect at word k of the whole code string (global decode)"""
+    if opc.version_tuple >= (3, 11):
+        return W.c_ext(code, k, REF(opc).hasarg, EXT(opc), ctab(opc))
+    return W.w_ext(code, k, opc.HAVE_ARGUMENT, EXT(opc))
+
+
+def wf_ext(code, opc):
+    """valid code: EXTENDED_ARG is followed by an operand-taking instruction (3.6 - 3.10; part of wf311 from 3.11)"""
+    ext, have = EXT(opc), opc.HAVE_ARGUMENT
+    return ForAll(lambda i: Implies(And(0 <= i, 2 * i < Len(code), At(code, 2 * i) == ext),
+                                    And(2 * i + 2 < Len(code), At(code, 2 * i + 2) >= have)))
+
+
+def drv_requires(bytecode, opc):
+    if opc.version_tuple >= (3, 11):
+        return finder_pre(bytecode, opc)
+    return And(finder_pre(bytecode, opc), wf_ext(bytecode, opc))
+
+
+def drv_post(value, bytecode, opc, _ny, linestarts, line_offset):
+    """k-th instruction of the stream (word code): tiles the code in words, operands folded as CPython's
+    _unpack_opargs folds them over the *whole* code string, flags/lines as for the decoder"""
+    k = _ny
+    off = 2 * k
+    op = bytecode[off]
+    has_arg = op >= opc.HAVE_ARGUMENT
+    out = [("offset==2k", value.offset == off), ("opcode", value.opcode == op),
+           ("arg", value.arg == If(has_arg, bytecode[off + 1] + glob_ext(bytecode, opc, k), None)),
+           ("is_jump_target", value.is_jump_target == Has(label_spec(bytecode, opc), off))]
+    if linestarts is not None:
+        out.append(("starts_line", value.starts_line == If(MapHas(linestarts, off), MapAt(linestarts, off) + line_offset, None)))
+    return out
+
+
+def drv_outer_inv(bytecode, opc, offset, n, _ny):
+    return And(n == Len(bytecode), offset == 2 * _ny, _ny >= 0, offset <= n, glob_ext(bytecode, opc, _ny) == 0)
+
+
+def drv_inner_inv(bytecode, opc, offset, n, instructions, instruction, _k, _ny):
+    have, ext = opc.HAVE_ARGUMENT, EXT(opc)
+    L = W.g_len(bytecode, offset, have, ext)
+    return And(n == Len(bytecode), offset % 2 == 0, offset >= 0, offset < n, _ny == offset // 2 + _k, 0 <= _k, _k <= L,
+               glob_ext(bytecode, opc, offset // 2) == 0,
+               Implies(_k < L, And(_k + W.g_len(bytecode, offset + 2 * _k, have, ext) == L,
+                                   W.g_ext(bytecode, offset, _k) == glob_ext(bytecode, opc, offset // 2 + _k))),
+               Implies(And(_k >= 1, _k < L), And(bytecode[offset + 2 * (_k - 1)] == ext, ext >= have)),
+               Implies(_k >= 2, And(bytecode[offset + 2 * (_k - 2)] == ext, ext >= have)),
+               Implies(_k >= 1, And(instruction.offset == offset + 2 * (_k - 1), instruction.opcode == bytecode[offset + 2 * (_k - 1)],
+                                    Or(_k < L, Not(And(instruction.opcode == ext, instruction.opcode >= have)), offset + 2 * _k >= n))))
+
+
+contract(
+    "xdis.bytecode:get_instructions_bytes",
+    kind="generator",
+    configs=lambda: dict((lb, {"opc": m, "exception_entries": None}) for lb, m in CW.tables().items() if m.version_tuple >= (3, 6)),
+    when=lambda opc: opc.version_tuple >= (3, 6),
+    params={"bytecode": Bytes(alphabet=WORD_ALPHA, maxlen=8, even=True), "linestarts": IntMap(), "line_offset": Int(pool=[0, 5, -2]),
+            "varnames": Tok(tuple, ("a", "b")), "names": Tok(tuple, ("n",)), "constants": Tok(tuple, (None, 1)), "cells": Tok(tuple, ())},
+    examples={"bytecode": gen_code},
+    requires=lambda bytecode, opc, exception_entries: And(drv_requires(bytecode, opc), exception_entries is None),
+    raises={IndexError: True},
+    yield_count=lambda bytecode: Len(bytecode) // 2,
+    yield_fresh=FreshInstruction(),
+    yield_post=lambda value, bytecode, opc, _ny, linestarts, line_offset: drv_post(value, bytecode, opc, _ny, linestarts, line_offset),
+    loops={2: Loop("while offset < n", invariant=drv_outer_inv, decreases=lambda n, offset: n - offset),
+           3: Loop("for instruction in instructions", havoc={"instruction": FreshInstruction()}, invariant=drv_inner_inv)},
+)
+
+
+ALL_CONTRACTS = CW.CONTRACTS + CONTRACTS     # callee contracts available at call sites
